@@ -873,3 +873,11 @@ mod test {
         }
     }
 }
+
+// Verification hook: with the `verif-hook` feature (test builds only) an external harness file,
+// named by the SYLVIA_VERIF_HARNESS environment variable at build time, is compiled into this
+// crate so that it can call the private `*_impl` expanders in-process. Off by default.
+#[cfg(all(test, feature = "verif-hook"))]
+mod verif_hook {
+    include!(env!("SYLVIA_VERIF_HARNESS"));
+}
